@@ -6,6 +6,7 @@ import (
 	"sync"
 
 	"go.miragespace.co/specter/kv/aof/proto"
+	"go.miragespace.co/specter/spec/chord"
 	"go.miragespace.co/specter/spec/protocol"
 )
 
@@ -42,6 +43,18 @@ func (d *DiskKV) handleMutation(mut *proto.Mutation) error {
 
 	}
 	return err
+}
+
+// validateMutation reports the error handleMutation would return, without
+// touching any state. Only the mutation loop writes prefix children to memKv,
+// so the answer cannot change between this check and handleMutation.
+func (d *DiskKV) validateMutation(mut *proto.Mutation) error {
+	if mut.GetType() == proto.MutationType_PREFIX_APPEND {
+		if ok, _ := d.memKv.PrefixContains(context.Background(), mut.GetKey(), mut.GetValue()); ok {
+			return chord.ErrKVPrefixConflict
+		}
+	}
+	return nil
 }
 
 func (d *DiskKV) mutationHandler(fn func(mut *proto.Mutation)) error {
